@@ -66,7 +66,7 @@ Print Assumptions C02_mod_overloads_agree.
 (* divmod overloads and the IntegerDom forms return the same pair *)
 Theorem C02_divmod_overloads_agree : Divmod_overloads_agree_stmt. Proof. exact divmod_overloads_agree. Qed.
 Print Assumptions C02_divmod_overloads_agree.
-(* quo, rem, quoin, remin, quoRem describe one division a = b q + r, 0 <= r < |b| (quo as repaired by frag/C02.fix-1.diff) *)
+(* quo, rem, quoin, remin, quoRem describe one division a = b q + r, 0 <= r < |b| (quo as repaired by a7f1360 = frag/C02.fix-1.diff) *)
 Theorem C02_euclidean_ring_view_consistent : Euclidean_ring_consistent_stmt. Proof. exact euclidean_ring_consistent. Qed.
 Print Assumptions C02_euclidean_ring_view_consistent.
 (* with quo = floor (the body before the repair) the ring view is inconsistent for a negative divisor *)
